@@ -108,7 +108,7 @@ func VerifHarness_C10_bucket_mmap() {
 // FindHash read out of range or name an object that is not at that offset.
 func VerifHarness_C10_escape_mmap() {
 	n := verifrt.Range(verifrt.Param("NMIN"), verifrt.Param("N"))
-	w := idxfile.VerifC10Build(idxfile.VerifC10Entries(n, true))
+	w := idxfile.VerifC10Build(idxfile.VerifC10Entries(n, n))
 	if verifrt.NondetBool() {
 		id, v, slots := w.VerifC10Corrupt()
 		s, err := verifC10Scanner(w.Idx, w.Rev)
